@@ -265,7 +265,7 @@ def run(ctx):
     chk.ob('K5', 'thread-id-is-pthread_self', ok, G.where(), G.name, 'thread identity is %s' % render(rets[0]) if rets else '')
     N = prog.require_func('snoopy_tsrm_createNewThreadData')
     stored = False
-    for n in N.body.walk():
+    for n in [x for g in common.with_helpers(prog, N) for x in g.body.walk()]:
         if n.k == 'BinaryOperator' and n['op'] == '=':
             l, r = strip(n.ch[0]), decl_of(n.ch[1])
             if l.k == 'MemberExpr' and l['member'] == 'threadId' and r is not None and r['kind'] == 'parm':
